@@ -5,8 +5,8 @@ use educe::Educe;
 use core::cmp::Ordering;
 #[derive(Educe)]
 #[educe(Hash)]
-pub enum T { A }
-pub fn values() -> Vec<T> { vec![T::A] }
-pub fn show(x: &T) -> String { #[allow(unused_variables)] match x { T::A => format!("A()") } }
-pub fn o_hash(x: &T) -> Vec<String> { let mut e = Rec::default(); match x { T::A => { ::core::hash::Hash::hash(&0usize, &mut e); } } e.0 }
+pub enum T { Zed, Some { #[educe(Hash(ignore(true)))] f: A<0>, #[educe(Hash(ignore))] size: A<1>, #[educe(Hash(ignore = true))] arg: A<0> } }
+pub fn values() -> Vec<T> { vec![T::Zed, T::Some { f: A(7), size: A(1), arg: A(7) }, T::Some { f: A(0), size: A(0), arg: A(7) }, T::Some { f: A(0), size: A(7), arg: A(7) }, T::Some { f: A(0), size: A(0), arg: A(0) }, T::Some { f: A(0), size: A(1), arg: A(7) }, T::Some { f: A(7), size: A(7), arg: A(7) }, T::Some { f: A(0), size: A(0), arg: A(1) }, T::Some { f: A(7), size: A(0), arg: A(7) }, T::Some { f: A(1), size: A(7), arg: A(0) }, T::Some { f: A(7), size: A(7), arg: A(1) }, T::Some { f: A(1), size: A(0), arg: A(0) }, T::Some { f: A(7), size: A(7), arg: A(0) }, T::Some { f: A(0), size: A(7), arg: A(1) }, T::Some { f: A(0), size: A(7), arg: A(0) }, T::Some { f: A(7), size: A(0), arg: A(1) }, T::Some { f: A(1), size: A(0), arg: A(1) }, T::Some { f: A(7), size: A(1), arg: A(0) }, T::Some { f: A(1), size: A(1), arg: A(7) }, T::Some { f: A(1), size: A(7), arg: A(1) }, T::Some { f: A(1), size: A(0), arg: A(7) }, T::Some { f: A(7), size: A(1), arg: A(1) }, T::Some { f: A(0), size: A(1), arg: A(0) }, T::Some { f: A(7), size: A(0), arg: A(0) }, T::Some { f: A(0), size: A(1), arg: A(1) }] }
+pub fn show(x: &T) -> String { #[allow(unused_variables)] match x { T::Zed => format!("Zed()"), T::Some { f: p0, size: p1, arg: p2 } => format!("Some({},{},{})", sv(p0), sv(p1), sv(p2)) } }
+pub fn o_hash(x: &T) -> Vec<String> { let mut e = Rec::default(); match x { T::Zed => { ::core::hash::Hash::hash(&0usize, &mut e); }, T::Some { f: p0, size: p1, arg: p2 } => { ::core::hash::Hash::hash(&1usize, &mut e); } } e.0 }
 pub fn run(out: &mut Out) { let vs = values(); for a in &vs { let mut g = Rec::default(); ::core::hash::Hash::hash(a, &mut g); let e = o_hash(a); out.check(g.0 == e, "hash_3", "hash", || format!("hash({}) fed {:?} expected {:?}", show(a), g.0, e)); } }
